@@ -257,6 +257,10 @@ func ruleEFloatOrigin(p *Program, r *Reporter) {
 				case ssa.CallInstruction:
 					n := calleeFullName(x.Common())
 					if why := forbidden(n); why != "" {
+						if (n == "strconv.Atoi" || n == "strconv.ParseInt") && nr.onlyFor(fn, nr.toInt) && integerFastPath(x) {
+							r.OK(in.Pos(), fmt.Sprintf("%s calls %s", name, n), "a fast path of the integer-argument coercion: decimal text that is a plain integer in range is converted exactly, and on every other text (the error result is tested) the decimal conversion decides")
+							continue
+						}
 						r.Bad(instrPos(in), fmt.Sprintf("%s calls %s", name, n), why)
 						continue
 					}
@@ -302,6 +306,68 @@ func ruleEFloatOrigin(p *Program, r *Reporter) {
 		}
 	}
 	r.OK(token.NoPos, "scan", fmt.Sprintf("%d evaluator functions scanned: %d FromFloat* calls, %d Decimal.IntNN calls, no forbidden numeric detour", len(p.ReachFuncs(p.Eval)), fromFloat, int64Calls))
+}
+
+// integerFastPath: call parses an integer in base 10 and its error result is tested; on the failing edge the text is
+// handed to decimal128.Parse (directly or through a repository helper) before anything is returned.
+func integerFastPath(call ssa.CallInstruction) bool {
+	c := call.Common()
+	if calleeFullName(c) == "strconv.ParseInt" {
+		if k, ok := c.Args[1].(*ssa.Const); !ok || k.Value == nil || k.Value.ExactString() != "10" {
+			return false
+		}
+	}
+	v, ok := call.(*ssa.Call)
+	if !ok {
+		return false
+	}
+	errv := extractOf(v, 1)
+	if errv == nil {
+		return false
+	}
+	for _, ref := range *errv.Referrers() {
+		bo, ok := ref.(*ssa.BinOp)
+		if !ok || !(isNilConst(bo.X) || isNilConst(bo.Y)) {
+			continue
+		}
+		for _, r2 := range *bo.Referrers() {
+			iff, ok := r2.(*ssa.If)
+			if !ok {
+				continue
+			}
+			failing := iff.Block().Succs[1] // err == nil is false
+			if bo.Op == token.NEQ {
+				failing = iff.Block().Succs[0]
+			}
+			// the failing edge leads to a decimal parse
+			seen := map[*ssa.BasicBlock]bool{}
+			var walk func(b *ssa.BasicBlock) bool
+			walk = func(b *ssa.BasicBlock) bool {
+				if seen[b] {
+					return false
+				}
+				seen[b] = true
+				for _, in := range b.Instrs {
+					if ci, ok := in.(ssa.CallInstruction); ok && strings.HasSuffix(calleeFullName(ci.Common()), "decimal128.Parse") {
+						return true
+					}
+					if _, isRet := in.(*ssa.Return); isRet {
+						return false
+					}
+				}
+				for _, s := range b.Succs {
+					if walk(s) {
+						return true
+					}
+				}
+				return false
+			}
+			if walk(failing) {
+				return true
+			}
+		}
+	}
+	return false
 }
 
 // isTypeSwitchBinding: v is the result of a comma-ok type assertion extract (a type-switch binding).
